@@ -251,8 +251,8 @@ def build():
     world.call_hooks.insert(0, call_p)
     world.exc_parents["InvalidFieldAnnotations"] = "Exception"
     A(Contract(f"{TM_}:get_field_types", params={"type_": "NodeClassObj"}, returns="Seq[FieldAndType]", props=P, trusted=True,
-               trusted_reason="the dataclass fields of the class with their resolved annotations (get_type_hints for postponed ones, NewType unwrapped once), as the item list of "
-                              "the returned dict; resolution of string annotations is CPython's",
+               trusted_reason="proved below as get_field_types#body (an insertion-ordered dict: resolved_types_map / resolved_types_keys over the dataclass fields); here the "
+                              "same result is named as the item list of that dict, which is what `.items()` iterates",
                may_raise=["Exception"], ensures=["result == field_types_of(type_)"]))
     A(Contract(f"{TM_}:get_type_info", params={"type_": "Ty", "allow_sequence": "bool"}, returns="TyInfo", props=P, trusted=True,
                trusted_reason="cached constructor of the (is_collection, type) record", ensures=["result == type_info_of(type_)"]))
@@ -269,6 +269,103 @@ def build():
                note="a field whose annotation mentions a node class is a child field when the annotation is one of the child shapes, a field that mentions none is a property when it "
                     "holds no mutable collection; any other field makes the whole class rejected with InvalidFieldAnnotations; otherwise children and properties are listed in "
                     "dataclass field order"))
+    # ---- get_field_types: the resolved annotation of every dataclass field -----------------------------------------------------------
+    # raw annotation of a field: none (a literal `None` annotation) | a string (postponed annotation) | a type
+    RAW = usort("RawAnnotation")
+    raw_kind = z3.Function("raw_kind", RAW.z3(), z3.IntSort())            # 0 None, 1 str, 2 type
+    raw_ty = z3.Function("raw_as_type", RAW.z3(), TY.z3())
+    f_raw = z3.Function("dfield_raw_type", FLD.z3(), RAW.z3())
+    dc_fields = z3.Function("dataclass_fields", NCLS.z3(), SF.z3())
+    OTY = opt_of(TY)
+    hint_of = z3.Function("type_hint_of", NCLS.z3(), z3.StringSort(), OTY.z3())     # get_type_hints(cls).get(name)
+    NONETYPE = TY.fresh("NONETYPE_TY")
+    world.axioms.append(kind(NONETYPE.term) == K["NONETYPE"])
+    unwrapped = lambda t: z3.If(kind(t) == K["NEWTYPE"], inner(t), t)
+
+    def resolved(c, f):      # Opt[Ty]: what the loop body computes before the None test
+        r = f_raw(f)
+        return z3.If(raw_kind(r) == 0, OTY.some(NONETYPE).term, z3.If(raw_kind(r) == 1, hint_of(c, fld_name(f)), OTY.some(TY.wrap(raw_ty(r))).term))
+
+    ftmap = lib.fn("resolved_types_map", [NCLS, SF], map_sort(FLD, TY))
+    ftkeys = lib.fn("resolved_types_keys", [NCLS, SF], SF)
+    unresolved = lib.fn("some_field_unresolved", [NCLS, SF], BOOL)
+    MFT = map_sort(FLD, TY)
+    ftmap.rule("ftmap-empty", 1, "empty")(lambda a, p: MFT.empty().term)
+    ftmap.rule("ftmap-snoc", 1, "snoc")(lambda a, p: z3.Store(ftmap.t(a[0], p[0]), p[1], MFT.opt.some(TY.wrap(unwrapped(OTY.val(resolved(a[0], p[1]))))).term))
+    ftkeys.rule("ftkeys-empty", 1, "empty")(lambda a, p: z3.Empty(SF.z3()))
+    ftkeys.rule("ftkeys-snoc", 1, "snoc")(lambda a, p: z3.If(z3.Not(MFT.opt.is_none(z3.Select(ftmap.t(a[0], p[0]), p[1]))), ftkeys.t(a[0], p[0]), mk_snoc(ftkeys.t(a[0], p[0]), p[1])))
+    unresolved.rule("unresolved-empty", 1, "empty")(lambda a, p: z3.BoolVal(False))
+    unresolved.rule("unresolved-snoc", 1, "snoc")(lambda a, p: z3.Or(unresolved.t(a[0], p[0]), OTY.is_none(resolved(a[0], p[1]))))
+    unresolved.rule("unresolved-prefix", 1, "concat", "lemma", raw=True)(lambda a, p: z3.Implies(unresolved.t(a[0], p[0]), unresolved.t(a[0], z3.Concat(p[0], p[1]))))
+    sf.update({"resolved_types_map": ftmap, "resolved_types_keys": ftkeys, "some_field_unresolved": unresolved,
+               "dataclass_fields": lambda c: SF.wrap(dc_fields(c.term))})
+
+    def attr_g(m, obj, name):
+        if isinstance(obj, VU) and obj.sort == FLD and name == "type":
+            return RAW.wrap(f_raw(obj.term))
+        if isinstance(obj, VPy) and isinstance(obj.obj, tuple) and obj.obj[0] == "hints" and name == "get":
+            from pyvc.values import VBound
+            return VBound(obj, "get")
+        return None
+
+    def call_g(m, func, a, kw, node):
+        from pyvc.values import VBound
+        if isinstance(func, VPy) and func.obj == ("builtin", "fields") and isinstance(a[0], VU) and a[0].sort == NCLS:
+            return SF.wrap(dc_fields(a[0].term))
+        if isinstance(func, VPy) and func.obj == ("get_type_hints",) and isinstance(a[0], VU) and a[0].sort == NCLS:
+            # typing.get_type_hints may raise NameError (unresolved forward reference) or TypeError
+            if m.ctx.branch(z3.Bool(fresh_name("get_type_hints_raises"))):
+                raise RaiseSig(VExc("NameError"))
+            return VPy(("hints", a[0]))
+        if isinstance(func, VBound) and isinstance(func.recv, VPy) and isinstance(func.recv.obj, tuple) and func.recv.obj[0] == "hints" and func.name == "get":
+            return VOpt(hint_of(func.recv.obj[1].term, STR.coerce(a[0]).term), OTY)
+        if isinstance(func, VPy) and func.obj == ("builtin", "type") and len(a) == 1 and isinstance(a[0], VNone_):
+            return NONETYPE
+        return NotImplemented
+
+    from pyvc.values import VNone as VNone_
+
+    def isinst_g(m, v, cls):
+        if isinstance(v, VU) and v.sort == RAW and getattr(cls, "name", "") == "str":
+            return raw_kind(v.term) == 1
+        return None
+
+    def eq_g(m, a, b):
+        for x, y in ((a, b), (b, a)):
+            if isinstance(x, VU) and x.sort == RAW and isinstance(y, VNone_):
+                return raw_kind(x.term) == 0
+        return None
+
+    def coerce_g(m, v, sname):
+        if sname in ("Opt[Ty]", "Ty") and isinstance(v, VU) and v.sort == RAW:
+            # f_type = field.type: from here on the raw annotation is used as a type (when it is one)
+            return VOpt(z3.If(raw_kind(v.term) == 2, OTY.some(TY.wrap(raw_ty(v.term))).term, OTY.none().term), OTY) if sname == "Opt[Ty]" else TY.wrap(raw_ty(v.term))
+        return None
+
+    world.attr_hooks.insert(0, attr_g)
+    world.call_hooks.insert(0, call_g)
+    world.isinstance_hooks.insert(0, isinst_g)
+    world.eq_hooks.insert(0, eq_g)
+    world.none_hooks = [lambda m, v: (raw_kind(v.term) == 0) if isinstance(v, VU) and v.sort == RAW else None]
+    world.coerce_hooks = getattr(world, "coerce_hooks", []) + [coerce_g]
+    world.name_hooks.append(lambda m, n: VPy(("builtin", "fields")) if n == "fields" else (VPy(("get_type_hints",)) if n == "get_type_hints" else None))
+    world.exc_parents["NameError"] = "Exception"
+    world.exc_parents["RuntimeError"] = "Exception"
+    A(Contract(f"{TM_}:get_field_types", variant_of="body", params={"type_": "NodeClassObj"}, returns="ODict[DField,Ty]", props=P,
+               locals={"ret": "ODict[DField,Ty]", "f_type": "Opt[Ty]"}, may_raise=["NameError"],
+               requires=["raw_wf(dataclass_fields(type_))"],
+               raises=[("RuntimeError", "some_field_unresolved(type_, dataclass_fields(type_))")],
+               ensures=["result == resolved_types_map(type_, dataclass_fields(type_))", "keys_of(result) == resolved_types_keys(type_, dataclass_fields(type_))"],
+               loops={1: Loop(inv=["ret == resolved_types_map(type_, done1)", "keys_of(ret) == resolved_types_keys(type_, done1)", "not some_field_unresolved(type_, done1)",
+                                   "raw_wf(seq1)", "seq1 == dataclass_fields(type_)"])},
+               note="for every dataclass field, in field order: a literal None annotation is NoneType, a string annotation is whatever get_type_hints resolves it to, anything else the "
+                    "annotation itself; a NewType is replaced by the type it wraps (once: pyoak's unwrap_newtype contract); RuntimeError when a string annotation resolves to nothing"))
+    reg.contracts[f"{TM_}:get_field_types#body"].fn = f"{TM_}:get_field_types"
+    raw_wf = lib.fn("raw_wf", [SF], BOOL)
+    raw_wf.rule("raw_wf-empty", 0, "empty")(lambda a, p: z3.BoolVal(True))
+    raw_wf.rule("raw_wf-snoc", 0, "snoc")(lambda a, p: z3.And(raw_wf.t(p[0]), raw_kind(f_raw(p[1])) >= 0, raw_kind(f_raw(p[1])) <= 2))
+    raw_wf.rule("raw_wf-prefix", 0, "concat", "lemma", raw=True)(lambda a, p: z3.Implies(raw_wf.t(z3.Concat(p[0], p[1])), raw_wf.t(p[0])))
+    sf["raw_wf"] = raw_wf
     # each field lands in exactly one class (fields of a dataclass are distinct objects)
     has_f = lib.fn("has_field", [SFT, FLD], BOOL)
     nodup = lib.fn("distinct_fields", [SFT], BOOL)
@@ -301,4 +398,26 @@ def build():
         bank.add(whole, ("snoc", z3.Concat(wa, wb), wy))
         return [ih], z3.Implies(all_wf.t(whole), all_wf.t(wa))
     lem.append(Lemma("all_wf-prefix", [("base", wp_base), ("step", wp_step)], P))
+    fa, fb_, fy = z3.Const("fa_l", SF.z3()), z3.Const("fb_l", SF.z3()), z3.Const("fy_l", FLD.z3())
+    cq = z3.Const("c_l", NCLS.z3())
+
+    def rw_base(bank):
+        return [], z3.Implies(raw_wf.t(z3.Concat(fa, z3.Empty(SF.z3()))), raw_wf.t(fa))
+
+    def rw_step(bank):
+        ih = z3.Implies(raw_wf.t(z3.Concat(fa, fb_)), raw_wf.t(fa))
+        whole = z3.Concat(fa, mk_snoc(fb_, fy))
+        bank.add(whole, ("snoc", z3.Concat(fa, fb_), fy))
+        return [ih], z3.Implies(raw_wf.t(whole), raw_wf.t(fa))
+    lem.append(Lemma("raw_wf-prefix", [("base", rw_base), ("step", rw_step)], P))
+
+    def ur_base(bank):
+        return [], z3.Implies(unresolved.t(cq, fa), unresolved.t(cq, z3.Concat(fa, z3.Empty(SF.z3()))))
+
+    def ur_step(bank):
+        ih = z3.Implies(unresolved.t(cq, fa), unresolved.t(cq, z3.Concat(fa, fb_)))
+        whole = z3.Concat(fa, mk_snoc(fb_, fy))
+        bank.add(whole, ("snoc", z3.Concat(fa, fb_), fy))
+        return [ih], z3.Implies(unresolved.t(cq, fa), unresolved.t(cq, whole))
+    lem.append(Lemma("unresolved-prefix", [("base", ur_base), ("step", ur_step)], P))
     return world, lib, reg, lem
